@@ -73,11 +73,14 @@ class Func(object):
 
 
 class Module(object):
-    def __init__(self, name, path):
+    def __init__(self, name, path, src=None):
         self.name = name
         self.path = path
-        with open(path, encoding='utf-8') as f:
-            self.src = f.read()
+        if src is not None:
+            self.src = src
+        else:
+            with open(path, encoding='utf-8') as f:
+                self.src = f.read()
         import warnings
         with warnings.catch_warnings():
             warnings.simplefilter('ignore')
@@ -135,20 +138,26 @@ class Module(object):
 
 
 class Program(object):
-    def __init__(self, repo=None):
+    def __init__(self, repo=None, sources=None):
+        """sources: {module name: source text} builds a program from texts (fixtures of zero-instance rules);
+        modules not given are empty."""
         self.repo = repo or REPO
         self.modules = {}
         h = hashlib.sha256()
         for name in MODULES:
             path = os.path.join(self.repo, PKG, name + '.py')
+            if sources is not None:
+                self.modules[name] = Module(name, '<fixture %s>' % name, sources.get(name, ''))
+                h.update(self.modules[name].src.encode('utf-8'))
+                continue
             if not os.path.exists(path):
                 raise AnalysisError('module %s.py is missing' % name)
             self.modules[name] = Module(name, path)
             h.update(self.modules[name].src.encode('utf-8'))
         script = os.path.join(self.repo, 'treetools')
-        if not os.path.exists(script):
+        if sources is None and not os.path.exists(script):
             raise AnalysisError('entry script treetools is missing')
-        self.modules['__main__'] = Module('__main__', script)
+        self.modules['__main__'] = Module('__main__', script, sources.get('__main__', '') if sources is not None else None)
         h.update(self.modules['__main__'].src.encode('utf-8'))
         self.digest = h.hexdigest()[:16]
         from . import normalise
@@ -321,6 +330,12 @@ class Program(object):
                 for sub in ast.walk(root):
                     if not isinstance(sub, ast.Call) or self.pure_call(sub, func):
                         continue
+                    if isinstance(sub.func, ast.Name) and sub.func.id not in func.locals \
+                            and self.callee(sub, func) is None:
+                        continue        # a builtin or a standard-library function: it does not know about node fields
+                    if isinstance(sub.func, ast.Attribute) and isinstance(sub.func.value, ast.Name) \
+                            and sub.func.value.id in func.module.imports and sub.func.value.id not in func.locals:
+                        continue        # module.function of the standard library
                     args = list(sub.args) + [k.value for k in sub.keywords]
                     if isinstance(sub.func, ast.Attribute) and self.callee(sub, func) is None:
                         # a method of a builtin container / stream cannot reach into the nodes it is handed; only
